@@ -25,7 +25,7 @@ failsafegrpc/client.go failsafegrpc/server.go failsafegrpc/policy.go
 internal/util/util.go internal/execution.go""".split()
 
 CHECKS = {
-    "": ["C01", "C15", "C17", "C08", "C14", "C16", "C02", "C09", "C19"],
+    "": ["C01", "C15", "C17", "C08", "C07", "C14", "C16", "C02", "C09", "C19", "C10"],
     "policy": ["C12", "C01", "C10", "C16"],
     "common": ["C01", "C16"],
     "retrypolicy": ["C02", "C13", "C12", "C01", "C16", "C08", "C17", "C14"],
